@@ -283,13 +283,26 @@ func runC14(res *report.Result) {
 	for i := range vals {
 		h.checkValue(vals, i)
 	}
+	// the backend catalogue: allocations whose assets belong to two different channel backends.
+	// The second backend (id 7) is registered only now, so that everything above ran in a
+	// process that knows the sim backend alone, like the other harnesses that share the catalogue.
+	cat.RegisterSecondChannelBackend()
+	benvs, bvals := cat.BackendEnvelopes(), cat.BackendValues()
+	for i := range benvs {
+		h.checkEnvelope(benvs, i)
+	}
+	for i := range bvals {
+		h.checkValue(bvals, i)
+	}
+	res.Count("catalogue_backend_envelopes", int64(len(benvs)))
+	res.Count("catalogue_backend_values", int64(len(bvals)))
 	// last, because from here on the process has seen failing encodes: every envelope once more
 	// after each failing envelope (c14_fail_test.go)
-	h.runAfterFailure(envs)
+	h.runAfterFailure(append(append([]cat.Envelope{}, envs...), benvs...))
 	res.Count("catalogue_envelopes", int64(len(envs)))
 	res.Count("catalogue_values", int64(len(vals)))
 	res.Extra["exhaustive"] = true
-	res.Extra["bound"] = fmt.Sprintf("catalogue of %d envelopes (17 message types) x 2 serializers and %d values, of which %d envelopes and %d values exactly at one documented limit (1024 assets / participants / sub-allocations, 128 byte amounts, 32 byte nonces), see harness/codec/cat; every envelope again after each of %d failing envelopes, %d rounds each", len(envs), len(vals), nLimE, nLimV, len(cat.FailingEnvelopes()), failRounds)
+	res.Extra["bound"] = fmt.Sprintf("catalogue of %d envelopes (17 message types) x 2 serializers and %d values, of which %d envelopes and %d values exactly at one documented limit (1024 assets / participants / sub-allocations, 128 byte amounts, 32 byte nonces), see harness/codec/cat; %d envelopes and %d values with assets of two different channel backends (ids 0 and 7); every envelope again after each of %d failing envelopes, %d rounds each", len(envs), len(vals), nLimE, nLimV, len(benvs), len(bvals), len(cat.FailingEnvelopes()), failRounds)
 	res.Note("second wallet backend id %d registered in-process: %v (needed for two-entry wallet address maps)", cat.SecondBackend, cat.SecondBackendRegistered)
 	res.Note("not expressible by the protobuf serializer (run with the native one only): ShutdownMsg with a 65535 byte reason (frame limit), ChannelSyncMsg without state (FromState dereferences the nil state)")
 	res.Note("limit catalogue: entries with 1024 participants that carry a 64 byte wallet address or signature per participant exceed the 65535 byte protobuf frame and are run with the native serializer only (entries_not_expressible_protobuf)")
